@@ -117,7 +117,13 @@ def ir_job(job):
             bad = f'{type(e).__name__}: {e}'
         rep.counts['obligations'] += 1
         if bad:
-            found.append(bad)
+            extra = [eng.failed_claim] if eng.failed_claim is not None else []
+            mdl = eng.solver.model() if eng.solver.check(*extra) == z3.sat else eng.model()
+            vals = {}
+            for dcl in mdl.decls():
+                try: vals[dcl.name()] = mdl[dcl].as_long()
+                except Exception: pass
+            found.append((bad, vals))
         else: rep.counts['discharged'] += 1
         return 1
     try: eng.explore(fn)
@@ -125,6 +131,8 @@ def ir_job(job):
     rep.counts['paths'] += eng.npaths; rep.counts['branches'] += eng.nbranches; rep.solver_s += eng.tsolve
     data = {'mode': 'ir', 'seq': list(seq), 'wild': [list(w) for w in wild], 'special': special, 'dims': list(dims)}
     if found:
+        data['vals'] = found[0][1]
+        found = [found[0][0]]
         ok, what = replay(data)
         cls = 'regular-net-wires' if not special and ('TypeError' in found[0] or 'TypeError' in what) else ('wildcard-in-wire-points' if 'resolved' in found[0] or 'resolved' in what else 'geometry')
         if ok: rep.violation(f'ir/{cls}', f'{found[0]}; replay: {what}', data)
@@ -138,9 +146,10 @@ def replay_ir(data):
     w = DefWire(); w.layer = 'M1'; w.width = '120' if special else None
     pts, cur, exp_pts, exp_vias = [], None, [], {}
     wi = iter(wild); c = 0
+    V = data.get('vals') or {}
     for k, it in enumerate(seq):
         if it == 'p':
-            x, y = 100 + 13 * k, 1000 + 17 * k
+            x, y = V.get(f'x{k}', 100 + 13 * k), V.get(f'y{k}', 1000 + 17 * k)
             wx, wy = (False, False) if k == 0 else next(wi)
             pts.append((None if wx else x, None if wy else y))
             cur = (cur[0] if wx else x, cur[1] if wy else y) if cur else (x, y)
@@ -149,7 +158,7 @@ def replay_ir(data):
             ori = 'FS' if (it == 'o' and not special) else 'N'
             pts.append((f'VIA{k}', None if special else ori)); exp_vias.setdefault(f'VIA{k}', []).append((cur[0], cur[1], ori))
         else:
-            n, m = dims; dx, dy = 5 + k, -7 - k
+            n, m = dims; dx, dy = V.get(f'dx{k}', 5 + k), V.get(f'dy{k}', -7 - k)
             pts.append((f'ARR{k}', (n, m, dx, dy)))
             for i in range(n):
                 for j in range(m): exp_vias.setdefault(f'ARR{k}', []).append((cur[0] + i * dx, cur[1] + j * dy, 'N'))
